@@ -223,6 +223,10 @@ def run_case(case, R):
         from rpylib.model.levymodel.levymodel import LevyRepresentation
 
         m2 = _build(spec, case)
+        # another model is constructed after this one and before its triplet is converted (state shared between triplet instances
+        # would make the conversions below use the newest model's measure)
+        decoy = W.build_model({"family": "HEM", "params": {"sigma": 0.2, "p": 0.3, "eta1": 9.0, "eta2": 4.0, "intensity": 6.0}, "exp": False})
+        decoy.levy_triplet.set_representation(LevyRepresentation.ONEONE)
         t2 = (m2.levy_model if spec.get("exp") else m2).levy_triplet
         reps = ["CENTER", "ONEONE", "TILDE"] + (["ZERO"] if fv else [])
         seq = [str(rng.choice(reps)) for _ in range(6)] + [rep0]
